@@ -7,6 +7,10 @@
 (* state machine has one step per field group for the writer and for the reader:   *)
 (*   PackFlags PackSize PackUidGid PackMode PackTimes PackExt                      *)
 (*   UnpackFlags UnpackSize UnpackUidGid UnpackMode UnpackTimes UnpackExt          *)
+(* A behaviour is a SEQUENCE of independent attribute objects (blocks): after one   *)
+(* set has been encoded and decoded, NextBlock starts over with new objects.  What  *)
+(* block B yields must depend on B's input only; `leak` is whatever a newly created *)
+(* object inherits from earlier ones (nothing, in the design).                       *)
 (* The wire is a sequence of *tokens* (u32 / u64 / string): how tokens become      *)
 (* bytes is C39's business (WireCodec.tla).                                        *)
 (*                                                                                *)
@@ -22,16 +26,22 @@ CONSTANTS U32Vals,     \* u32 values (limb pairs) the model checker uses for ids
           FixExtOrder, \* TRUE = the design (name read before value).  FALSE = faithful to the pinned code:
                        \*   `self.attr[msg.get_string()] = msg.get_string()` evaluates the right-hand side first,
                        \*   so the first string (the name) becomes the value and the second the key
+          MaxBlocks,   \* number of attribute sets processed one after the other
+          SharedExtMap,\* FALSE = the design (every new object has its own empty extended map).  TRUE = all
+                       \*   default-constructed objects alias ONE map (a mutable default argument): what was
+                       \*   decoded or set in place earlier shows up in every later object
           Mutation     \* "none" = the design; other values re-introduce a defect (sensitivity runs)
 
-VARIABLES attrs,       \* the attribute set being encoded
+VARIABLES attrs,       \* the attribute set being encoded: the INPUT of the current block
           pc,          \* next step
           flags,       \* _flags of the encoded object after _pack (limb pair)
           wire,        \* tokens written so far
           rpos,        \* tokens consumed by the reader
           rflags,      \* _flags of the decoded object
-          dec          \* the decoded attribute set (so far)
-vars == <<attrs, pc, flags, wire, rpos, rflags, dec>>
+          dec,         \* the decoded attribute set (so far)
+          leak,        \* extended attributes a newly created object starts with (Seq of pairs)
+          round        \* number of the current block
+vars == <<attrs, pc, flags, wire, rpos, rflags, dec, leak, round>>
 
 (* ---- data ---------------------------------------------------------------------- *)
 None == <<>>
@@ -73,6 +83,11 @@ PackTokens(a) ==
   \o (IF HasExt(a) THEN <<Count(Len(a.ext))>> \o ExtTokens(a.ext) ELSE <<>>)
 
 ExtMap(e) == {<<e[j][1], e[j][2]>> : j \in 1..Len(e)}
+\* update map l in place with the pairs of e (dict semantics: an existing name keeps its position)
+RECURSIVE Merge(_, _)
+Merge(l, e) == IF e = <<>> THEN l
+               ELSE LET hit == {j \in 1..Len(l) : l[j][1] = e[1][1]} IN
+                    Merge(IF hit = {} THEN Append(l, e[1]) ELSE [j \in 1..Len(l) |-> IF j \in hit THEN e[1] ELSE l[j]], Tail(e))
 Swapped(e) == {<<p[2], p[1]>> : p \in ExtMap(e)}
 DistinctKeys(e) == \A j, k \in 1..Len(e) : j # k => e[j][1] # e[k][1]
 
@@ -103,6 +118,7 @@ U32Quick == {<<0, 0>>, <<65535, 65535>>}
 U32Full  == {<<0, 0>>, <<0, 1>>, <<65535, 65535>>}                                    \* 0, 1, 2^32-1
 U64Quick == {<<0, 0, 0, 0>>, <<0, 1, 0, 0>>, <<65535, 65535, 65535, 65535>>}          \* 0, 2^32, 2^64-1
 U64Full  == U64Quick \cup {<<0, 0, 0, 1>>, <<0, 0, 65535, 65535>>}                    \* ... 1, 2^32-1
+U32One   == {<<65535, 65535>>}
 U64One   == {<<0, 1, 0, 0>>}
 KeysOne  == {<<107>>}
 KeysTwo  == {<<107>>, <<107, 64, 120, 46, 121>>}                                      \* "k", "k@x.y"
@@ -114,47 +130,55 @@ Opt(S) == {None} \cup {Some(v) : v \in S}
 PairOpt(S) == {<<None, None>>} \cup {<<Some(v), Some(w)>> : v \in S, w \in S}
 KV == Keys \X Vals
 ExtMaps == {e \in UNION {[1..n -> KV] : n \in 0..MaxExt} : DistinctKeys(e)}
+Inputs == {[size |-> s, uid |-> ug[1], gid |-> ug[2], mode |-> m, atime |-> t[1], mtime |-> t[2], ext |-> e] :
+             s \in Opt(U64Vals), ug \in PairOpt(U32Vals), m \in Opt(U32Vals), t \in PairOpt(U32Vals), e \in ExtMaps}
 
-Init == /\ \E s \in Opt(U64Vals), ug \in PairOpt(U32Vals), m \in Opt(U32Vals), t \in PairOpt(U32Vals), e \in ExtMaps :
-             attrs = [size |-> s, uid |-> ug[1], gid |-> ug[2], mode |-> m, atime |-> t[1], mtime |-> t[2], ext |-> e]
-        /\ pc = "PackFlags" /\ flags = <<0, 0>> /\ wire = <<>> /\ rpos = 0 /\ rflags = <<0, 0>> /\ dec = Empty
+\* a newly created object (SFTPAttributes(), _from_msg, from_stat): all fields absent, extended map = leak
+Fresh(lk) == [Empty EXCEPT !.ext = lk]
+\* the object that gets encoded: the caller's fields on a new object; extended attributes are put into the map it came with
+Obj == [attrs EXCEPT !.ext = Merge(Fresh(leak).ext, attrs.ext)]
 
-Put(toks, next) == wire' = wire \o toks /\ pc' = next /\ UNCHANGED <<attrs, rpos, rflags, dec>>
+Init == /\ attrs \in Inputs
+        /\ pc = "PackFlags" /\ flags = <<0, 0>> /\ wire = <<>> /\ rpos = 0 /\ rflags = <<0, 0>>
+        /\ leak = <<>> /\ round = 1 /\ dec = Fresh(<<>>)
+
+Put(toks, next) == wire' = wire \o toks /\ pc' = next /\ UNCHANGED <<attrs, rpos, rflags, dec, round>>
 
 PackFlags == /\ pc = "PackFlags"
-             /\ flags' = IF Mutation = "mode_flag_not_set" THEN <<FlagWord(attrs)[1], FlagWord(attrs)[2] - 4 * B(HasMode(attrs))>>
-                         ELSE FlagWord(attrs)
+             /\ flags' = IF Mutation = "mode_flag_not_set" THEN <<FlagWord(Obj)[1], FlagWord(Obj)[2] - 4 * B(HasMode(Obj))>>
+                         ELSE FlagWord(Obj)
+             /\ leak' = IF SharedExtMap THEN Obj.ext ELSE leak          \* setting names in place writes into the shared map
              /\ Put(<<U32(flags')>>, "PackSize")
-PackSize == /\ pc = "PackSize" /\ UNCHANGED flags
-            /\ Put(IF FSize(flags) THEN <<U64(attrs.size[1])>> ELSE <<>>, "PackUidGid")
-PackUidGid == /\ pc = "PackUidGid" /\ UNCHANGED flags
-              /\ Put(IF FUidGid(flags) THEN <<U32(attrs.uid[1]), U32(attrs.gid[1])>> ELSE <<>>, "PackMode")
-PackMode == /\ pc = "PackMode" /\ UNCHANGED flags
-            /\ Put(IF FMode(flags) THEN <<U32(attrs.mode[1])>> ELSE <<>>, "PackTimes")
-PackTimes == /\ pc = "PackTimes" /\ UNCHANGED flags
-             /\ Put(IF FTimes(flags) THEN <<U32(attrs.atime[1]), U32(attrs.mtime[1])>> ELSE <<>>, "PackExt")
-PackExt == /\ pc = "PackExt" /\ UNCHANGED flags
+PackSize == /\ pc = "PackSize" /\ UNCHANGED <<flags, leak>>
+            /\ Put(IF FSize(flags) THEN <<U64(Obj.size[1])>> ELSE <<>>, "PackUidGid")
+PackUidGid == /\ pc = "PackUidGid" /\ UNCHANGED <<flags, leak>>
+              /\ Put(IF FUidGid(flags) THEN <<U32(Obj.uid[1]), U32(Obj.gid[1])>> ELSE <<>>, "PackMode")
+PackMode == /\ pc = "PackMode" /\ UNCHANGED <<flags, leak>>
+            /\ Put(IF FMode(flags) THEN <<U32(Obj.mode[1])>> ELSE <<>>, "PackTimes")
+PackTimes == /\ pc = "PackTimes" /\ UNCHANGED <<flags, leak>>
+             /\ Put(IF FTimes(flags) THEN <<U32(Obj.atime[1]), U32(Obj.mtime[1])>> ELSE <<>>, "PackExt")
+PackExt == /\ pc = "PackExt" /\ UNCHANGED <<flags, leak>>
            /\ Put(IF FExt(flags)
-                  THEN <<Count(IF Mutation = "ext_count_short" THEN Len(attrs.ext) - 1 ELSE Len(attrs.ext))>> \o ExtTokens(attrs.ext)
+                  THEN <<Count(IF Mutation = "ext_count_short" THEN Len(Obj.ext) - 1 ELSE Len(Obj.ext))>> \o ExtTokens(Obj.ext)
                   ELSE <<>>, "UnpackFlags")
 
 \* the reader: Tok(j) is the j-th token after the read position
 Tok(j) == wire[rpos + j]
-Take(n, d, next) == rpos' = rpos + n /\ dec' = d /\ pc' = next /\ UNCHANGED <<attrs, flags, wire>>
+Take(n, d, next) == rpos' = rpos + n /\ dec' = d /\ pc' = next /\ UNCHANGED <<attrs, flags, wire, round>>
 
-UnpackFlags == /\ pc = "UnpackFlags"
+UnpackFlags == /\ pc = "UnpackFlags" /\ UNCHANGED leak
                /\ rflags' = Tok(1).n
                /\ Take(1, dec, "UnpackSize")
-UnpackSize == /\ pc = "UnpackSize" /\ UNCHANGED rflags
+UnpackSize == /\ pc = "UnpackSize" /\ UNCHANGED <<rflags, leak>>
               /\ IF FSize(rflags) THEN Take(1, [dec EXCEPT !.size = Some(Tok(1).n)], "UnpackUidGid")
                                   ELSE Take(0, dec, "UnpackUidGid")
-UnpackUidGid == /\ pc = "UnpackUidGid" /\ UNCHANGED rflags
+UnpackUidGid == /\ pc = "UnpackUidGid" /\ UNCHANGED <<rflags, leak>>
                 /\ IF FUidGid(rflags) THEN Take(2, [dec EXCEPT !.uid = Some(Tok(1).n), !.gid = Some(Tok(2).n)], "UnpackMode")
                                       ELSE Take(0, dec, "UnpackMode")
-UnpackMode == /\ pc = "UnpackMode" /\ UNCHANGED rflags
+UnpackMode == /\ pc = "UnpackMode" /\ UNCHANGED <<rflags, leak>>
               /\ IF FMode(rflags) THEN Take(1, [dec EXCEPT !.mode = Some(Tok(1).n)], "UnpackTimes")
                                   ELSE Take(0, dec, "UnpackTimes")
-UnpackTimes == /\ pc = "UnpackTimes" /\ UNCHANGED rflags
+UnpackTimes == /\ pc = "UnpackTimes" /\ UNCHANGED <<rflags, leak>>
                /\ IF FTimes(rflags)
                   THEN (IF Mutation = "times_swapped"
                         THEN Take(2, [dec EXCEPT !.atime = Some(Tok(2).n), !.mtime = Some(Tok(1).n)], "UnpackExt")
@@ -162,16 +186,28 @@ UnpackTimes == /\ pc = "UnpackTimes" /\ UNCHANGED rflags
                   ELSE Take(0, dec, "UnpackExt")
 UnpackExt == /\ pc = "UnpackExt" /\ UNCHANGED rflags
              /\ IF FExt(rflags)
-                THEN LET c == Tok(1).n[2] IN
-                     Take(1 + 2 * c, [dec EXCEPT !.ext = [j \in 1..c |-> IF FixExtOrder THEN <<Tok(2 * j).s, Tok(2 * j + 1).s>>
-                                                                                  ELSE <<Tok(2 * j + 1).s, Tok(2 * j).s>>]], "done")
-                ELSE Take(0, dec, "done")
+                THEN LET c == Tok(1).n[2]
+                         pairs == [j \in 1..c |-> IF FixExtOrder THEN <<Tok(2 * j).s, Tok(2 * j + 1).s>>
+                                                                 ELSE <<Tok(2 * j + 1).s, Tok(2 * j).s>>] IN
+                     /\ Take(1 + 2 * c, [dec EXCEPT !.ext = Merge(dec.ext, pairs)], "done")
+                     /\ leak' = IF SharedExtMap THEN Merge(dec.ext, pairs) ELSE leak     \* ... and so does decoding into it
+                ELSE Take(0, dec, "done") /\ UNCHANGED leak
+
+\* the next, independent attribute set: new objects on both sides
+NextBlock == /\ pc = "done" /\ round < MaxBlocks
+             /\ attrs' \in Inputs
+             /\ pc' = "PackFlags" /\ flags' = <<0, 0>> /\ wire' = <<>> /\ rpos' = 0 /\ rflags' = <<0, 0>>
+             /\ dec' = Fresh(IF SharedExtMap THEN leak ELSE <<>>)
+             /\ round' = round + 1 /\ UNCHANGED leak
 
 Next == \/ PackFlags \/ PackSize \/ PackUidGid \/ PackMode \/ PackTimes \/ PackExt
         \/ UnpackFlags \/ UnpackSize \/ UnpackUidGid \/ UnpackMode \/ UnpackTimes \/ UnpackExt
+        \/ NextBlock
 Spec == Init /\ [][Next]_vars
 
 (* ---- invariants (the statement of C33 on the model) ---------------------------- *)
+\* (attrs is the input of the CURRENT block only: every invariant below therefore also says that what a block
+\*  yields does not depend on the blocks before it)
 Packing == pc \in {"PackFlags", "PackSize", "PackUidGid", "PackMode", "PackTimes", "PackExt"}
 \* already-read tokens and the unread rest are the whole encoding; the reader never runs past its end
 ReaderInside == rpos <= Len(wire) /\ SubSeq(wire, 1, rpos) \o SubSeq(wire, rpos + 1, Len(wire)) = wire
@@ -184,8 +220,10 @@ AbsentStaysAbsent == /\ (~HasSize(attrs) => dec.size = None) /\ (~HasMode(attrs)
                      /\ (~HasUidGid(attrs) => dec.uid = None /\ dec.gid = None)
                      /\ (~HasTimes(attrs) => dec.atime = None /\ dec.mtime = None)
                      /\ (~HasExt(attrs) => dec.ext = <<>>)
+\* nothing is carried from one object to the next: a new object is empty
+NoCarryOver == leak = <<>> /\ (pc = "PackFlags" => dec = Empty /\ Obj = attrs)
 \* at the end everything written was consumed and every clause of the statement holds
 RoundTrip == pc = "done" => rpos = Len(wire) /\ RoundTripClauses(attrs, dec, rflags) = {} /\ dec = attrs
 \* emitted for spec -> code replay: one case per attribute set
-Emit == pc = "done" => PrintT(<<"CASE", attrs, flags, wire>>)
+Emit == (pc = "done" /\ round = 1) => PrintT(<<"CASE", attrs, flags, wire>>)
 =============================================================================
